@@ -374,6 +374,7 @@ type promptPeer struct {
 	out     *io.PipeWriter
 	handled map[string]int
 	idOf    map[string]string
+	stray   bool // a line that is not JSON (what a server prints to stdout by mistake) precedes every answer
 }
 
 func (s *promptPeer) Write(p []byte) (int, error) {
@@ -406,14 +407,33 @@ func (s *promptPeer) Write(p []byte) (int, error) {
 		}
 		// io.Pipe: the first write returns once the reader loop has taken the line; the empty line that follows is taken
 		// only when the loop comes back for more, i.e. after it has dispatched the answer.
-		if _, err := io.WriteString(s.out, resp+"\n"); err != nil {
+		if s.stray {
+			if err := s.writeOut("Server listening (this line is not JSON) ...\n"); err != nil {
+				return 0, err
+			}
+		}
+		if err := s.writeOut(resp + "\n"); err != nil {
 			return 0, err
 		}
-		if _, err := io.WriteString(s.out, "\n"); err != nil {
+		if err := s.writeOut("\n"); err != nil {
 			return 0, err
 		}
 	}
 	return len(p), nil
+}
+
+// writeOut writes to the client's stdout; a client whose reader has stopped reading would block the pipe for ever: after two
+// seconds the pipe is closed instead.
+func (s *promptPeer) writeOut(str string) error {
+	done := make(chan error, 1)
+	go func() { _, err := io.WriteString(s.out, str); done <- err }()
+	select {
+	case err := <-done:
+		return err
+	case <-time.After(2 * time.Second):
+		s.out.CloseWithError(fmt.Errorf("the client stopped reading its server's stdout"))
+		return <-done
+	}
 }
 
 func (s *promptPeer) Close() error { return s.out.Close() }
@@ -561,5 +581,38 @@ func runPrompt(c *hk.Ctx) {
 		}
 		ts.CloseClientConnections()
 		ts.Close()
+	}
+}
+
+// runStray: the server's stdout carries a line that is not JSON before an answer (a log line printed by mistake): the stdio
+// client must skip it and the call must complete with its own answer — and so must the calls after it.
+func runStray(c *hk.Ctx) {
+	outR, outW := io.Pipe()
+	peer := &promptPeer{out: outW, handled: map[string]int{}, idOf: map[string]string{}, stray: true}
+	sc, err := mcp.VerifNewStdioClientOnPipes(mcp.Implementation{Name: "verif-client", Version: "1"}, 2*time.Second, peer, outR, mcp.WithStdioLogger(hk.QuietLogger{}))
+	if err != nil {
+		return
+	}
+	defer func() { go sc.Close(); outW.Close() }()
+	ictx, icancel := context.WithTimeout(context.Background(), callCeiling())
+	_, err = sc.Initialize(ictx, &mcp.InitializeRequest{})
+	icancel()
+	if err != nil {
+		c.Violate(hk.Violation{Fingerprint: "pending:no-answer:stdio-stray-line",
+			What:  "a stdio call got nothing although the server answered it and the connection is up: a line that is not JSON preceded the answer on the server's stdout",
+			Input: map[string]any{"call": "initialize", "stdout": []string{"Server listening (this line is not JSON) ...", "<the answer>"}}, Observed: err.Error()})
+		return
+	}
+	var cancels sync.Map
+	res := fire(callEcho(sc), [][]string{mkNonces(c, "st", 1, 4)[0]}, &cancels)
+	for i, r := range res {
+		c.Count("stray-"+r.nonce, true, nil, "stray-stdio")
+		if r.err != "" || r.text != expectText(r.nonce) {
+			c.Violate(hk.Violation{Fingerprint: "pending:no-answer:stdio-stray-line",
+				What:     "a stdio call got nothing (or not its own answer) although the server answered it once and the connection is up: a line that is not JSON preceded the answer on the server's stdout",
+				Input:    map[string]any{"call_no": i + 1, "nonce": r.nonce, "stdout": []string{"Server listening (this line is not JSON) ...", "<the answer>"}},
+				Observed: map[string]any{"error": r.err, "text": clip(r.text)}, Expected: expectText(r.nonce)})
+			break
+		}
 	}
 }
